@@ -134,8 +134,8 @@ theorem expandX_er (tc : TestCase) : ∀ (f : Nat) (cache : List CRow),
     | none => simp [erStack, CRow.er]
     | some i =>
       simp only
-      have := expandX_er tc f ({ top with entries := top.entries.set i (.num 0) } ::
-        { top with entries := top.entries.set i (.num 1) } :: rest)
+      have := expandX_er tc f ({ top with entries := top.entries.set i (.num 0), xcols := i :: top.xcols } ::
+        { top with entries := top.entries.set i (.num 1), xcols := i :: top.xcols } :: rest)
       simp only [List.map_cons, CRow.er] at this
       exact this
 
@@ -196,7 +196,7 @@ theorem getRow_er (tc : TestCase) (fuel : Nat) (s : RowIt) : getRow tc fuel s.er
         | panic m => simp [GetRowRes.er]
         | ok ins =>
           simp only
-          cases genExpected tc top.entries with
+          cases genExpected tc top.entries top.xcols with
           | err e => simp [GetRowRes.er]
           | panic m => simp [GetRowRes.er]
           | ok exps => simp [GetRowRes.er, EvRow.er, RowIt.er, CRow.er]
@@ -221,7 +221,7 @@ theorem getRow_er (tc : TestCase) (fuel : Nat) (s : RowIt) : getRow tc fuel s.er
       | panic m => simp [GetRowRes.er]
       | ok ins =>
         simp only
-        cases genExpected tc top.entries with
+        cases genExpected tc top.entries top.xcols with
         | err e => simp [GetRowRes.er]
         | panic m => simp [GetRowRes.er]
         | ok exps => simp [GetRowRes.er, EvRow.er, RowIt.er, CRow.er]
